@@ -149,6 +149,9 @@ pub fn run(prop: &str, world: &World, sc: &Scenario, ctx: &mut RunCtx) {
                 if gas.oog_in_multistage && gas.nested_return_with_unspent {
                     ctx.stats.inc("probe.strict_c26_nontrivial");
                 }
+                if gas.hot_after_clear.get() {
+                    ctx.stats.inc("probe.hot_read_of_cleared_slot");
+                }
                 // gas reported in the script result = gas limit − remaining global gas
                 if !outcome.is_err && !outcome.truncated {
                     if let Some(fuel_tx::Receipt::ScriptResult { gas_used, .. }) = outcome.receipts.last() {
